@@ -186,7 +186,8 @@ impl Segment3D {
         let normal = a.cross(b);
         let delta = self.start() - input.start();
 
-        if delta.cross(normal).is_zero() {
+        // the supporting lines are |delta . normal| / |normal| apart
+        if (delta * normal).abs() > 1e-5 * normal.length() {
             return None;
         }
 
